@@ -83,6 +83,8 @@ impl Method for FixedMethod {
             self.pending_kar = None;
             self.typed.pop();
             if self.buffer.is_empty() {
+                // The input session has ended.
+                self.typed.clear();
                 return Suggestion::empty();
             }
             return self.create_suggestion(data, config);
@@ -93,7 +95,8 @@ impl Method for FixedMethod {
             self.typed.pop();
 
             if self.buffer.is_empty() {
-                // The buffer is now empty, so return empty suggestion.
+                // The buffer is now empty, so end the input session and return empty suggestion.
+                self.typed.clear();
                 return Suggestion::empty();
             }
 
